@@ -252,9 +252,16 @@ TzData synth_zone(uint64_t recipe_seed) {
     if (i == 0 && bigbang) t = r.range(-5000000000LL, -1000000000LL);
     else t += r.chance(0.1) ? r.range(2 * 86400 + 2, 3 * 86400) : r.range(30 * 86400LL, 400 * 86400LL);
   }
-  if (r.chance(0.3) && ntypes == d.types.size()) {
+  if (r.chance(0.45) && ntypes == d.types.size()) {
+    // standard/wall and UT/local indicators: both arrays (what zic writes), only one of them, all zero, all one
     d.isstd.assign(ntypes, 0); d.isut.assign(ntypes, 0);
-    for (size_t i = 0; i < ntypes; ++i) { d.isstd[i] = r.chance(0.5); d.isut[i] = d.isstd[i] && r.chance(0.5); }
+    int shape = static_cast<int>(r.below(5));
+    for (size_t i = 0; i < ntypes; ++i) {
+      d.isstd[i] = shape == 3 ? 0 : shape == 4 ? 1 : r.chance(0.5);
+      d.isut[i] = shape == 3 ? 0 : (d.isstd[i] && r.chance(0.5));
+    }
+    if (shape == 1) d.isut.clear();       // std-only
+    else if (shape == 2) d.isstd.clear(); // ut-only
   }
   if (d.version != '\0') {
     int mode = static_cast<int>(r.below(10));
